@@ -224,6 +224,29 @@ def long_prefix_cases(rng, n):
     return out
 
 
+# ---------- dense structures x nested temporal path formulas ----------
+def dense_cases(rng, n, kind):
+    """structures with 3-5 states in which most transitions are present (the tableau then has large, nested strongly connected
+    components, where an error in how components are delimited shows up) x path formulas with two or three nested temporal
+    operators under A / E"""
+    ops2 = [g for g in path_formulas_ops(2) if sum(1 for h in subformulas(g) if h[0] in TEMPORAL) >= 2]
+    out = []
+    while len(out) < n:
+        m = rng.randint(3, 5)
+        st = list(range(m))
+        R_ = [(a, b) for a in st for b in st if rng.random() < 0.75]
+        for a in st:
+            if not any(x == a for x, _ in R_):
+                R_.append((a, rng.choice(st)))
+        rng.shuffle(R_)
+        kd = {'S': st, 'S0': [], 'R': R_, 'L': {a: [p for p in ('p', 'q') if rng.random() < 0.4] for a in st}}
+        g = rng.choice(ops2)
+        if rng.random() < 0.3:
+            g = (rng.choice(['U', 'R']), g, rng.choice(ops2[:40]))
+        out.append((kd, (('A' if kind == 'LTL' else rng.choice('AE')), g)))
+    return out
+
+
 # ---------- wide connectives: Or/And are VARIADIC (the parsers fold 'a or b or c' into one node) ----------
 def wide_cases(rng, n, kind):
     """(structure, formula) cases whose or/and nodes have 3-5 operands (1 operand in a few cases), every operand a distinct
